@@ -39,7 +39,7 @@ def hj_case(draw, tier):
     rextra = draw(st.lists(st.sampled_from(["c", "d"]), max_size=2, unique=True))
     lh = draw(st.permutations(lk + lextra))
     rh = draw(st.permutations(rk + rextra))
-    p = draw(gen.pool(KEYCELL, 2, 4))
+    p = draw(gen.twinned_pool(KEYCELL, 2, 4))
     kc = st.sampled_from(p)
     vc = st.one_of(st.sampled_from(p), st.integers(0, 3))
     ragged = fn != "hashantijoin" and draw(st.integers(0, 2)) == 0
@@ -155,7 +155,7 @@ LOOKUPS = ["lookup", "lookupone", "dictlookup", "dictlookupone", "recordlookup",
 def lk_case(draw, tier):
     nf = draw(st.sampled_from([2, 3, 4]))
     hdr = ["k", "j", "a", "b"][:nf]
-    p = draw(gen.pool(KEYCELL, 2, 4))
+    p = draw(gen.twinned_pool(KEYCELL, 2, 4))
     cell = st.one_of(st.sampled_from(p), st.integers(0, 3))
     tbl = draw(gen.table(hdr, [st.sampled_from(p)] * min(2, nf) + [cell] * (nf - min(2, nf)), max_rows=7 if tier == "quick" else 14))
     fn = draw(st.sampled_from(LOOKUPS))
